@@ -258,6 +258,11 @@ def e1_scenarios(tier):
     for la in (0, 1):
         S.append((f"GET,expect-body[la={la}]", dict(pre=(R(1) + exp_head).decode("latin-1"), segments=[("hello", "after100")], workers=1, lookahead=la, kinds=["plain", "expect-body"]), 2 if (la == 0 or not q) else 1))
     S.append(("GET,expect-body[head arrives later]", dict(pre=R(1).decode("latin-1"), segments=[(exp_head.decode("latin-1"), None), ("@release:go", None), ("hello", "after100")], workers=1, lookahead=1, programs={"/r1": dict(body=["ok"], block="go")}, kinds=["plain", "expect-body"]), 1 if q else 2))
+    # two complete requests queued in front of the expecting one (needs lookahead 2)
+    S.append(("GET,GET,expect-body[la=2]", dict(pre=(R(1) + R(2) + R(3, "POST", extra=["Expect: 100-continue", "Content-Length: 5"])).decode("latin-1"), segments=[("hello", "after100")], workers=1, lookahead=2, kinds=["plain", "plain", "expect-body"]), 1))
+    S.append(("GET,GET,expect-body[la=2,2 workers]", dict(pre=(R(1) + R(2) + R(3, "POST", extra=["Expect: 100-continue", "Content-Length: 5"])).decode("latin-1"), segments=[("hello", "after100")], workers=2, lookahead=2, kinds=["plain", "plain", "expect-body"]), 1))
+    # the expecting head arrives while the worker is finishing the preceding request
+    S.append(("GET,expect-body[head races the end of service]", dict(pre=R(1).decode("latin-1"), segments=[(exp_head.decode("latin-1"), None), ("hello", "after100")], workers=1, lookahead=1, kinds=["plain", "expect-body"]), 2))
     S.append(("expect-body first[arrives via I/O thread]", dict(pre="", segments=[(exp_head.decode("latin-1"), None), ("hello", "after100")], workers=1, lookahead=0, kinds=["plain", "expect-body"][1:]), 1 if q else 2))
     S.append(("GET,expect-nobody", dict(pre=(R(1) + exp_nobody).decode("latin-1"), workers=1, lookahead=0, kinds=["plain", "expect-nobody"]), 1 if q else 2))
     S.append(("GET,expect-body,GET", dict(pre=(R(1) + exp_head).decode("latin-1"), segments=[("hello" + R(3).decode("latin-1"), "after100")], workers=1, lookahead=0, kinds=["plain", "expect-body", "plain"]), 1 if q else 2))
